@@ -72,10 +72,10 @@ func runPropertyRaw(prop, tier string, forBaseline bool) *Report {
 	for _, t := range ts {
 		results = append(results, verifyTarget(t))
 	}
-	timeout := 20
+	timeout := 30
 	agree := false
 	if tier == "thorough" {
-		timeout = 60
+		timeout = 90
 		agree = true
 	}
 	var all []*Obligation
